@@ -712,6 +712,15 @@ func (ns *normState) findTarget(pk *packages.Package, e ast.Expr, callees map[*t
 			}
 			return nil
 		}
+		if sel, isSel := x.Fun.(*ast.SelectorExpr); isSel && !simpleOperand(sel.X) {
+			// the receiver expression is evaluated before anything else of this call
+			if t := ns.findTarget(pk, sel.X, callees, false); t != nil {
+				if tc, isC := sel.X.(*ast.CallExpr); isC && tc == t {
+					return t
+				}
+			}
+			return nil
+		}
 		if !simpleOperand(x.Fun) {
 			return nil
 		}
@@ -931,6 +940,35 @@ func (ns *normState) inlineInBlock(pk *packages.Package, file *ast.File, body *a
 				}
 				ns.tryHoist(pk, file, st, x.Rhs[0], callees, record)
 			}
+		case *ast.DeclStmt:
+			// var x T = f(a…)
+			gd, ok := x.Decl.(*ast.GenDecl)
+			if !ok || gd.Tok != token.VAR || len(gd.Specs) != 1 {
+				return
+			}
+			vs, ok := gd.Specs[0].(*ast.ValueSpec)
+			if !ok || len(vs.Names) != 1 || len(vs.Values) != 1 {
+				return
+			}
+			t := ns.findTarget(pk, vs.Values[0], callees, true)
+			if t == nil {
+				return
+			}
+			c := ns.calleeOf(pk, t, callees)
+			if c == nil || numResults(c) != 1 {
+				return
+			}
+			s := &inlSite{t, c, pk, file}
+			need, ok := ns.freeNamesOK(s)
+			if !ok {
+				return
+			}
+			pre, blk, temps, ok := ns.buildInline(s, "assign")
+			if !ok || len(temps) != 1 {
+				return
+			}
+			text := pre + blk + "\n" + ns.render(st.Pos(), st.End(), []posEdit{{t.Pos(), t.End(), temps[0]}})
+			record(s, st, text, need)
 		case *ast.IfStmt:
 			ns.tryIf(pk, file, x, callees, record)
 		}
@@ -961,7 +999,7 @@ func (ns *normState) tryHoist(pk *packages.Package, file *ast.File, st ast.Stmt,
 	if c == nil || numResults(c) != 1 {
 		return false
 	}
-	if t != e && !c.pure {
+	if t != e && !c.pure && !firstEvaluated(e, t) {
 		// not the whole expression: only hoist computations
 		if _, isCall := e.(*ast.CallExpr); isCall {
 			return false
@@ -1124,4 +1162,27 @@ func (ns *normState) tryIf(pk *packages.Package, file *ast.File, x *ast.IfStmt, 
 	cond := ns.render(x.Cond.Pos(), x.Cond.End(), []posEdit{{t.Pos(), t.End(), temps[0]}})
 	text := "{\n" + pre + blk + "\n" + rest(cond) + "\n}"
 	record(s, x, text, need)
+}
+
+// firstEvaluated: t is the first thing evaluated in e (receiver chains: t().m().n(args)).
+func firstEvaluated(e ast.Expr, t *ast.CallExpr) bool {
+	for {
+		switch x := e.(type) {
+		case *ast.ParenExpr:
+			e = x.X
+		case *ast.CallExpr:
+			if x == t {
+				return true
+			}
+			sel, ok := x.Fun.(*ast.SelectorExpr)
+			if !ok {
+				return false
+			}
+			e = sel.X
+		case *ast.SelectorExpr:
+			e = x.X
+		default:
+			return false
+		}
+	}
 }
